@@ -55,7 +55,21 @@ func (d *DM) StoresTagged(c *simkit.Client, tag string) context2.Stores {
 }
 
 // memDisk is a private in-memory local disk in the shape datamon's own callers use.
-func memDisk() afero.Fs { return afero.NewBasePathFs(afero.NewMemMapFs(), "/data") }
+func memDisk() afero.Fs {
+	if osDiskRoot != "" {
+		// real parallelism (race-stress mode): afero's MemMapFs file is not safe for concurrent WriteAt, a real file is
+		osDiskSeq++
+		dir := fmt.Sprintf("%s/disk%d", osDiskRoot, osDiskSeq)
+		_ = os.MkdirAll(dir, 0o755)
+		return afero.NewBasePathFs(afero.NewOsFs(), dir)
+	}
+	return afero.NewBasePathFs(afero.NewMemMapFs(), "/data")
+}
+
+var (
+	osDiskRoot string
+	osDiskSeq  int
+)
 
 func localStore(fs afero.Fs) storage.Store {
 	return localfs.New(fs, localfs.WithLogger(nopLog), localfs.WithRetry(false))
